@@ -228,21 +228,54 @@ def eval_one_vm(run_mod, inp, workdir, tag="one"):
         return None, txt
 
 
-RUNNER = os.path.join(COQ, "Extract", "modelrun")
+def runner_path(pid):
+    return os.path.join(COQ, "Extract", "bin", f"modelrun_{pid}")
 
 
-def have_runner():
-    return os.path.exists(RUNNER)
+def ensure_runner(pid, run_mod):
+    """Extracted OCaml runner for the property, rebuilt when older than any .vo it depends on.  None if unavailable."""
+    path = runner_path(pid)
+    deps = [f[:-2] + ".vo" for f in closure([run_mod.replace(".", "/") + ".v"])]
+    deps.append(os.path.join(COQ, "Extract", "driver.ml"))
+    try:
+        newest = max(os.path.getmtime(d) for d in deps if os.path.exists(d))
+    except ValueError:
+        return None
+    if not os.path.exists(path) or os.path.getmtime(path) < newest:
+        with build_lock():
+            if not os.path.exists(path) or os.path.getmtime(path) < newest:
+                subprocess.run(["sh", os.path.join(COQ, "Extract", "build.sh"), pid], stdout=subprocess.PIPE,
+                               stderr=subprocess.STDOUT)
+    if os.path.exists(path) and os.path.getmtime(path) >= newest:
+        return path
+    return None
 
 
-def eval_cases_ml(prop, inputs):
-    """Run the extracted model on many inputs; returns list of outputs (python sx values)."""
+def _ml_chunk(args):
+    path, inputs = args
     text = "\n".join(sx.to_text(i) for i in inputs) + "\n"
-    r = subprocess.run([RUNNER, prop], input=text, stdout=subprocess.PIPE, stderr=subprocess.PIPE, text=True)
+    r = subprocess.run(["timeout", "900", path], input=text, stdout=subprocess.PIPE, stderr=subprocess.PIPE, text=True)
     if r.returncode != 0:
-        raise RuntimeError(f"modelrun failed: {r.stderr[-500:]}")
-    lines = r.stdout.split("\n")
-    return [sx.from_text(l) for l in lines if l.strip()]
+        return None, r.stderr[-500:]
+    lines = [l for l in r.stdout.split("\n") if l.strip()]
+    if len(lines) != len(inputs):
+        return None, f"runner printed {len(lines)} results for {len(inputs)} inputs"
+    return [sx.from_text(l) for l in lines], ""
+
+
+def eval_cases_ml(path, cases, chunk=2000):
+    """cases: list of (input, expected).  Returns (mismatch_indices, errors) using the extracted runner."""
+    jobs = [(path, [i for i, _ in cases[k:k + chunk]]) for k in range(0, len(cases), chunk)]
+    mism, errors = [], []
+    with ThreadPoolExecutor(max_workers=JOBS) as ex:
+        for n, (outs, err) in enumerate(ex.map(_ml_chunk, jobs)):
+            if outs is None:
+                errors.append((n, err))
+                continue
+            for j, out in enumerate(outs):
+                if sx.norm(out) != sx.norm(cases[n * chunk + j][1]):
+                    mism.append(n * chunk + j)
+    return sorted(mism), errors
 
 
 def clean_work(workdir):
